@@ -280,6 +280,71 @@ def generate(rng, tier):
               "OP_0", "OP_1NEGATE", "OP_RESERVED", "OP_INVALIDOPCODE", "OP_DATA", "OP_SIG", "OP_PUBKEY", "OP_PUBKEYHASH", "OP_INVALID_ABOVE",
               "OP_1OP_2", "OP_1_OP_2", "O", "OP", "OP_"]:
         FA(t)
+    # --- AUDIT (value-dependent triggers / length bands / every variant), deterministic in both tiers
+    # every one-byte push value: round trip, plain and extended rendering, and the text side in both cases
+    for b in range(256):
+        RT("01%02x" % b); TE("01%02x" % b)
+        if b % 8 == 0 or b < 0x30:
+            FA("%02x" % b); FA("%02X" % b); TA("01%02x" % b)
+    # every two-byte payload whose hex is all digits: 100 scripts of 100 pushes each (round trip and extended form)
+    for a in range(100):
+        h = "".join("02%02d%02d" % (a, b) for b in range(100))
+        RT(h)
+        if a % 10 == 0 or a <= 16:
+            TE(h); TA(h)
+    # every one-byte all-digit payload next to its neighbours in one script
+    RT("".join("01%02d" % k for k in range(100))); TE("".join("01%02d" % k for k in range(100)))
+    # every push length 1..300 and 65534..65537 in every encoding that can carry it: extended and plain rendering,
+    # round trip of the minimal form (a length cast to u8 shows only in one residue band)
+    for n in list(range(1, 301)) + [65534, 65535, 65536, 65537]:
+        seed = n % 251 + 1
+        body = "l:%d:%d" % (seed, n)
+        forms = []
+        if n <= 75:
+            forms.append("%02x" % n)
+        if n <= 255:
+            forms.append("4c%02x" % n)
+        if n <= 65535:
+            forms.append("4d" + n.to_bytes(2, "little").hex())
+        forms.append("4e" + n.to_bytes(4, "little").hex())
+        for i, pre in enumerate(forms):
+            if n > 300 and i > 0 and pre.startswith("4e") and n < 65536:
+                pass
+            TE(pre + "+" + body)
+            if i == 0:
+                RT(pre + "+" + body); TA(pre + "+" + body)
+                if n <= 300:
+                    FAD("r:%02x:%d" % (0x30 + n % 10, 2 * n))      # the same length as text: 2n hex digits
+        if n in (75, 76, 255, 256, 300, 65535, 65536):
+            RT("51+" + forms[0] + "+" + body + "+63+" + forms[0] + "+" + body + "+67+" + forms[0] + "+" + body + "+68")
+    # every opcode in every position: top level, pass branch, else branch, nested pass, nested else
+    for n_, v in table:
+        o = "%02x" % v
+        for h in [o, "63" + o + "68", "6367" + o + "68", "6364" + o + "6868", "63676467" + o + "6868", "51" + o + "52", "64" + o + "67" + o + "68" + o]:
+            RT(h); TE(h)
+        for t in [n_, "OP_IF " + n_ + " OP_ENDIF", "OP_IF OP_ELSE " + n_ + " OP_ENDIF", "OP_IF OP_NOTIF " + n_ + " OP_ENDIF OP_ENDIF",
+                  "OP_IF OP_ELSE OP_NOTIF OP_ELSE " + n_ + " OP_ENDIF OP_ENDIF", "OP_NOTIF " + n_ + " OP_ELSE " + n_ + " OP_ENDIF " + n_]:
+            FA(t)
+    # each IF-family opcode as opener in each reader (top level / pass branch / else branch), with and without ELSE
+    for c in IFS:
+        o, nm = "%02x" % c, names[c]
+        shapes = [o + "68", o + "5168", o + "6768", o + "51675268", o + "675268",
+                  "63" + o + "6868", "63" + o + "516868", "63" + o + "5167526868", "63" + o + "67686768", "63" + o + "6768",
+                  "6367" + o + "6868", "6367" + o + "516868", "6367" + o + "5167526868", "6367" + o + "676868", "6367" + o + "68",
+                  o + o + "6868", o + "67" + o + "6868", o + o + "67686768", o, o + "67", "63" + o + "68", "6367" + o + "68"]
+        for h in shapes:
+            RT(h); TE(h); TA(h)
+        for t in [nm + " OP_ENDIF", nm + " 1 OP_ELSE 2 OP_ENDIF", "OP_IF " + nm + " 1 OP_ENDIF OP_ENDIF", "OP_IF " + nm + " OP_ELSE OP_ENDIF OP_ELSE OP_ENDIF",
+                  "OP_IF OP_ELSE " + nm + " 1 OP_ENDIF OP_ENDIF", "OP_IF OP_ELSE " + nm + " OP_ELSE 2 OP_ENDIF OP_ENDIF", nm, nm + " OP_ELSE",
+                  "OP_IF " + nm + " OP_ENDIF", "OP_IF OP_ELSE " + nm + " OP_ENDIF", nm + " " + nm + " OP_ENDIF OP_ENDIF"]:
+            FA(t)
+    # aliases and their neighbours as text, alone and inside a script (incl. "00".."09", signs, leading zeros)
+    for k in range(0, 20):
+        for t in [str(k), "%02d" % k, "%03d" % k, "+%d" % k, "-%d" % k, "OP_%d" % k, "0%x" % k if k < 16 else "1%x" % (k - 16)]:
+            FA(t); FA("OP_DUP " + t + " OP_DROP")
+    # the empty input for every entry point
+    RT(""); TA(""); TE(""); FA("")
+
     # --- P2PKH scripts built through ASM text
     for h in ["r:00:20", "r:11:20", "r:10:20", "r:ff:20", "l:7:20", "l:8:20", "1000000000000000000000000000000000000000", "r:11:19", "r:11:21", ""]:
         cases.append(("p2pkh.locking_script", [h]))
